@@ -10,8 +10,11 @@ import (
 	"math/big"
 	"path/filepath"
 	"reflect"
+	"runtime"
 	"runtime/debug"
 	"strings"
+	"sync"
+	"sync/atomic"
 
 	chaintypes "github.com/dappledger/AnnChain/chain/types"
 	ethcmn "github.com/dappledger/AnnChain/eth/common"
@@ -191,11 +194,47 @@ func panicSite(stack string) string {
 	return "unknown"
 }
 
+var siteSeen sync.Map // panic site -> *int32 (how often a full stack was recorded)
+
+// siteFromPCs: the first function below the runtime's panic machinery (and below the
+// go-common Panic* helpers), named like panicSite does from a stack text.
+func siteFromPCs(pcs []uintptr) string {
+	frames := runtime.CallersFrames(pcs)
+	seenPanic := false
+	for {
+		fr, more := frames.Next()
+		fn := fr.Function
+		switch {
+		case fn == "runtime.gopanic":
+			seenPanic = true
+		case !seenPanic:
+		case strings.HasPrefix(fn, "runtime."):
+		case strings.Contains(fn, "go-common.Panic"):
+		case fn == "":
+		default:
+			fn = strings.TrimPrefix(fn, "github.com/dappledger/AnnChain/")
+			fn = strings.TrimPrefix(fn, "github.com/ethereum/go-ethereum/")
+			return fn
+		}
+		if !more {
+			return "unknown"
+		}
+	}
+}
+
+// protect runs f and turns a panic into a panicInfo with its site. The site comes from
+// the program counters (cheap: robust-decoding workloads panic hundreds of thousands of
+// times on an unrepaired tree); the full stack text is recorded the first few times per site.
 func protect(f func()) (pi *panicInfo) {
 	defer func() {
 		if r := recover(); r != nil {
-			st := string(debug.Stack())
-			pi = &panicInfo{Value: short(r), Site: panicSite(st), Stack: st}
+			var pcs [64]uintptr
+			n := runtime.Callers(1, pcs[:])
+			pi = &panicInfo{Value: short(r), Site: siteFromPCs(pcs[:n])}
+			c, _ := siteSeen.LoadOrStore(pi.Site, new(int32))
+			if atomic.AddInt32(c.(*int32), 1) <= 6 {
+				pi.Stack = string(debug.Stack())
+			}
 		}
 	}()
 	f()
@@ -279,7 +318,8 @@ func judgeDiffs(w *wtype, codec string, n int64, diffs []leafDiff, enc []byte) i
 		var key string
 		if class == "int-above-2^53" {
 			// one defect class whatever the carrying type: JSON numbers are read through float64
-			key = "roundtrip/json/int-above-2^53/" + d.Kind
+			// (json-file: PrivValidator.Save -> wire.JSONBytesPretty re-marshals through float64 as well)
+			key = "roundtrip/" + codec + "/int-above-2^53/" + d.Kind
 			run.Count("rt_json_int_precision_lost", 1)
 			run.Distinct("rt_json_int_precision_fields", w.name+d.Path)
 		} else {
@@ -290,7 +330,7 @@ func judgeDiffs(w *wtype, codec string, n int64, diffs []leafDiff, enc []byte) i
 			enc2 = enc2[:4096]
 		}
 		wit := map[string]interface{}{"type": w.name, "codec": codec, "case": n, "leaf": d, "encoding_len": len(enc)}
-		if codec == "json" {
+		if strings.HasPrefix(codec, "json") {
 			wit["encoding"] = string(enc2)
 		} else {
 			wit["encoding_hex"] = fmt.Sprintf("%X", enc2)
@@ -457,7 +497,7 @@ func privValViaFile(w *wtype, n int64, v reflect.Value) {
 	}
 	var diffs []leafDiff
 	diffValues(v, reflect.ValueOf(loaded).Elem(), "", "", &diffs)
-	judgeDiffs(w, "json", n, diffs, fileBytes)
+	judgeDiffs(w, "json-file", n, diffs, fileBytes) // own key family: the file goes through wire.JSONBytesPretty
 }
 
 // ---------------------------------------------------------------- RLP
